@@ -31,12 +31,14 @@ CHECKS = {
                     "(append-or-backfill-pending frame); the encoder invariant bounds |bytes| - header_start by 2 + 64008 independent of stream length; "
                     "decoder functions ensure pending is unchanged (lag 0).",
             "note": "byte-level; the slice-granularity slack inside OwningIovec::stable_prefix ('one arena chunk') and consumer operations are assumed (C03/C04 not claimed)"},
-    "C14": {"engine": "kani+verus", "design_ref": "DESIGN.md 5 (C14)",
+    "C14": {"engine": "kani+verus+native", "design_ref": "DESIGN.md 5 (C14)",
             "technique": "Kani full-domain loop-free harness (complete) + Verus modular contracts on new/check/get_local_time/now",
             "text": "check_vouched_time: Ok <=> window, for ALL (i128, u64) inputs, proved twice (CBMC bit-precise, loop-free => complete; and "
                     "Verus over mathematical integers with overflow checks). check/new/new_or_die/get_local_time/check_or_die/now are verified by "
                     "Verus against the callee contracts: Ok <=> vouches /\\ window(ms(local), base), constructed values report their local time, "
-                    "internal self-checks cannot panic. A Kani harness cross-checks `check` with the real time/raffle code.",
+                    "internal self-checks cannot panic. A Kani harness cross-checks `check` with the real time crate "
+                    "and a stubbed voucher verdict; Engine C (native, bounded) runs the same rule through VouchedTime::new with REAL vouchers on 66 local "
+                    "times x ~70 base times (window edges, the same modulo 2^32/2^63/2^64), so that a failure is a concrete public-API input.",
             "note": "time / raffle / io::Error are dependencies under assumed contracts (stand-ins); BASE_TIME_CHECK pinned by a concrete Kani harness"},
 }
 
